@@ -72,6 +72,16 @@ Section OLE.
     | Some es => has_ole_encryption_stream es || existsb (ole_exists es) PPT_STREAMS
     end.
 
+  (* [MS-PPT] 2.3.2: CurrentUserAtom.headerToken (bytes 12..15 of the "Current User" stream) is 0xF3D1C4DF
+     for an encrypted document — with or without an EncryptedSummary stream.  `aware` = the detector
+     looks at it (proposed repair fixes/proposed-not-applied/C08-ppt-encrypted-header-token.patch);
+     today's code does not (aware = false).  token = None: no/short "Current User" stream. *)
+  Definition PPT_ENCRYPTED_TOKEN : N := 4090610911.   (* 0xF3D1C4DF *)
+  Definition token_encrypted (token : option N) : bool :=
+    match token with Some t => t =? PPT_ENCRYPTED_TOKEN | None => false end.
+  Definition ppt_detect_tok (aware : bool) (ole : option (list str)) (token : option N) : bool :=
+    ppt_detect ole || (aware && match ole with Some _ => token_encrypted token | None => false end).
+
   (* xls: the stream that openstream returns for "Workbook", else for "Book" *)
   Record xls_view := { x_entries : list str; x_workbook : bytes; x_book : bytes }.
   Definition xls_detect (ole : option xls_view) : bool :=
